@@ -194,7 +194,7 @@ def run(ctx):
                 "representations, representations followed by junk / zeros and random strings up to 16 bytes; every call "
                 "is recorded and judged by TLC against the specification. Non-trivial = a call whose result is a value "
                 "with at least one non-default component or an error; distinct by (type, bytes)")
-    ctx.assumptions = ["TLC's evaluation of the specification", "integer fields of the universe are at most 16 bits wide",
+    ctx.assumptions = ["TLC's evaluation of the specification", "integer fields of the universe are at most 23 bits wide",
                        "utf8 / byte arrays are sampled by the harness only (total, fixed point)"]
     cfg_b = "Wire_bytes2_quick.cfg" if ctx.tier == "quick" else "Wire_bytes_thorough.cfg"
     res = tlc.run("Wire", cfg_b, tag="c07spec", timeout=6000)
@@ -213,8 +213,10 @@ def run(ctx):
     tlc.cleanup(res)
     rng = random.Random(ctx.seed)
     if ctx.tier == "quick" and len(types) > 500:
-        rng.shuffle(types)
-        types = types[:500]
+        wide = [t for t in types if '"n": 9' in repr(t).replace("'", '"') or any('"n": %d' % n in repr(t).replace("'", '"') for n in (11, 12, 14, 15, 17, 23))]
+        rest = [t for t in types if t not in wide]
+        rng.shuffle(rest)
+        types = wide + rest[:max(0, 500 - len(wide))]
         ctx.exhaustive = False
     args = [(tj, hdr, ctx.seed * 100003 + n, ctx.tier, n * 100000) for n, (tj, hdr) in enumerate(types)]
     results = core.pmap(type_worker, args, chunksize=4)
